@@ -1152,7 +1152,39 @@ def x_time(it, args, kw):
     return SReal(z3.Real(it.path.fresh("time")))
 
 
+class Cycle:
+    """itertools.cycle over a concrete, non-empty list (E5: next(islice(cycle(xs), i, None)) == xs[i mod len(xs)])."""
+
+    def __init__(self, items):
+        self.items = items
+
+
+def x_cycle(it, args, kw):
+    items = _listify(it, args[0])
+    return Cycle(items)
+
+
+def x_islice(it, args, kw):
+    src, rest = args[0], list(args[1:])
+    if isinstance(src, Cycle):
+        start = rest[0] if rest else 0
+        stop = rest[1] if len(rest) > 1 else None
+        if is_sym(start) or (stop is not None and is_sym(stop)):
+            raise OutOfSubset("islice with symbolic bounds")
+        if not src.items:
+            return VGen([])
+        n = len(src.items)
+        count = (stop - start) if stop is not None else n
+        return VGen([src.items[(start + k) % n] for k in range(max(count, 0))])
+    items = _listify(it, src)
+    if any(is_sym(x) for x in rest):
+        raise OutOfSubset("islice with symbolic bounds")
+    return VGen(list(items)[slice(*rest)])
+
+
 EXTERN = {
+    "itertools.cycle": x_cycle,
+    "itertools.islice": x_islice,
     "enum.auto": x_enum_auto,
     "uuid.uuid4": x_uuid4,
     "warnings.filterwarnings": x_noop,
